@@ -148,8 +148,10 @@ SQL_DDL = """
         batch_num_samp               NDARRAY,
         method_samp                  NDARRAY
     );
+"""
 
-    DELETE FROM checkpoint;
+SQL_DELETE_QUERY = """
+    DELETE FROM checkpoint
 """
 
 
@@ -349,6 +351,9 @@ def save_calibrator_state(  # noqa: PLR0913
         cursor.execute(SQL_SAVE_USER_VERSION)
         cursor.executescript(SQL_DDL)
 
+        # replace the previous row inside the same transaction as the INSERT (executescript commits and runs in
+        # autocommit mode): a failed save must leave the previous checkpoint in place
+        cursor.execute(SQL_DELETE_QUERY)
         cursor.execute(
             SQL_SAVE_QUERY,
             (
